@@ -63,6 +63,84 @@ Example db2gtf_hit_sound_refuted :
   find_converted_gtf false d 22 fs = Some 5 /\ find_converted_gtf true d 22 fs = None /\ find_converted_gtf true d 21 fs = Some 5.
 Proof. vm_compute. repeat split; reflexivity. Qed.
 
+(* ---- the caches of read_mapper: an index / BED / BAM is reused exactly when the entry under this key names it and every
+        recorded modification time (and the k-mer size) equals the current one *)
+Lemma oz_is_true a b : oz_is a b = true <-> b = Some a.
+Proof. unfold oz_is. destruct b as [y|]; [rewrite Z.eqb_eq; split; [intros ->; reflexivity|intro H; inversion H; reflexivity]|split; discriminate]. Qed.
+Lemma exists_mtime fs p m : exists_ fs p && mtime_is fs p m = true <-> exists s, fs p = Some s /\ m = Some (f_mtime s).
+Proof. rewrite andb_true_iff, mtime_is_true. split; [intros [_ H]; exact H|intros (s & H1 & H2); split; [unfold exists_; rewrite H1; reflexivity|exists s; split; assumption]]. Qed.
+
+Theorem index_hit_sound : forall d ref kmer fs r,
+  find_stored_index d ref kmer fs = Some r <->
+  exists e sr si, aget d ref = Some e /\ i_index e = Some r /\
+                  fs ref = Some sr /\ i_ref_mtime e = Some (f_mtime sr) /\
+                  fs r = Some si /\ i_index_mtime e = Some (f_mtime si) /\ i_kmer e = Some kmer.
+Proof.
+  intros d ref kmer fs r. unfold find_stored_index, afield. destruct (aget d ref) as [e|]; [|split; [discriminate|intros (e & _ & _ & H & _); discriminate]].
+  destruct (i_index e) as [idx|] eqn:Ei; [|split; [discriminate|intros (e' & sr & si & H & H2 & _); inversion H; subst e'; congruence]].
+  destruct (exists_ fs ref && mtime_is fs ref (i_ref_mtime e)) eqn:A.
+  - apply exists_mtime in A. destruct A as (sr & A1 & A2).
+    destruct (exists_ fs idx && mtime_is fs idx (i_index_mtime e)) eqn:B.
+    + apply exists_mtime in B. destruct B as (si & B1 & B2). destruct (oz_is kmer (i_kmer e)) eqn:K.
+      * apply oz_is_true in K. split.
+        -- intro H; inversion H; subst idx. exists e, sr, si. repeat split; assumption.
+        -- intros (e' & _ & _ & H & H2 & _). inversion H; subst e'. congruence.
+      * split; [discriminate|]. intros (e' & _ & _ & H & _ & _ & _ & _ & _ & K2). inversion H; subst e'. apply oz_is_true in K2. congruence.
+    + split; [discriminate|]. intros (e' & sr' & si & H & H2 & _ & _ & B1 & B2 & _). inversion H; subst e'. assert (idx = r) by congruence. subst idx.
+      assert (X: exists_ fs r && mtime_is fs r (i_index_mtime e) = true) by (apply exists_mtime; exists si; split; assumption). congruence.
+  - split; [discriminate|]. intros (e' & sr & si & H & _ & A1 & A2 & _). inversion H; subst e'.
+    assert (X: exists_ fs ref && mtime_is fs ref (i_ref_mtime e) = true) by (apply exists_mtime; exists sr; split; assumption). congruence.
+Qed.
+
+Theorem bed_hit_sound : forall d db fs r,
+  find_stored_bed d db fs = Some r <->
+  exists e sd sb, aget d db = Some e /\ b_bed e = Some r /\
+                  fs db = Some sd /\ b_ref_mtime e = Some (f_mtime sd) /\
+                  fs r = Some sb /\ b_bed_mtime e = Some (f_mtime sb).
+Proof.
+  intros d db fs r. unfold find_stored_bed, afield. destruct (aget d db) as [e|]; [|split; [discriminate|intros (e & _ & _ & H & _); discriminate]].
+  destruct (b_bed e) as [bed|] eqn:Ei; [|split; [discriminate|intros (e' & sr & si & H & H2 & _); inversion H; subst e'; congruence]].
+  destruct (exists_ fs db && mtime_is fs db (b_ref_mtime e)) eqn:A.
+  - apply exists_mtime in A. destruct A as (sr & A1 & A2).
+    destruct (exists_ fs bed && mtime_is fs bed (b_bed_mtime e)) eqn:B.
+    + apply exists_mtime in B. destruct B as (si & B1 & B2). split.
+      * intro H; inversion H; subst bed. exists e, sr, si. repeat split; assumption.
+      * intros (e' & _ & _ & H & H2 & _). inversion H; subst e'. congruence.
+    + split; [discriminate|]. intros (e' & sr' & si & H & H2 & _ & _ & B1 & B2). inversion H; subst e'. assert (bed = r) by congruence. subst bed.
+      assert (X: exists_ fs r && mtime_is fs r (b_bed_mtime e) = true) by (apply exists_mtime; exists si; split; assumption). congruence.
+  - split; [discriminate|]. intros (e' & sr & si & H & _ & A1 & A2 & _). inversion H; subst e'.
+    assert (X: exists_ fs db && mtime_is fs db (b_ref_mtime e) = true) by (apply exists_mtime; exists sr; split; assumption). congruence.
+Qed.
+
+(* soundness of the alignment cache (the direction the property needs): a BAM is reused only if the entry under this key
+   names it and the index, the annotation (when one is used), the reads and the BAM all carry the recorded times *)
+Theorem alignment_hit_sound : forall d key fastq index ann fs r,
+  find_stored_alignment d key fastq index ann fs = Ok (Some r) ->
+  exists e si sf sb, aget d key = Some e /\ a_bam e = Some r /\
+                     fs index = Some si /\ a_index_mtime e = Some (f_mtime si) /\
+                     (forall ap, ann = Some ap -> exists sa, fs ap = Some sa /\ a_ann_mtime e = Some (f_mtime sa)) /\
+                     fs fastq = Some sf /\ a_fastq_mtime e = Some (f_mtime sf) /\
+                     fs r = Some sb /\ a_bam_mtime e = Some (f_mtime sb).
+Proof.
+  intros d key fastq index ann fs r. unfold find_stored_alignment, afield. destruct (aget d key) as [e|]; [|discriminate].
+  destruct (a_bam e) as [bam|] eqn:Eb; [|discriminate].
+  destruct (fs index) as [si|] eqn:Fi; [|discriminate].
+  destruct (mtime_is fs index (a_index_mtime e)) eqn:Mi; [|discriminate]. cbn [negb].
+  apply mtime_is_true in Mi. destruct Mi as (si' & Fi' & Mi). rewrite Fi in Fi'. inversion Fi'; subst si'.
+  assert (REST: (if exists_ fs fastq && mtime_is fs fastq (a_fastq_mtime e) then if exists_ fs bam && mtime_is fs bam (a_bam_mtime e) then Ok (Some bam) else Ok None else Ok None) = Ok (Some r) ->
+                exists sf sb, bam = r /\ fs fastq = Some sf /\ a_fastq_mtime e = Some (f_mtime sf) /\ fs r = Some sb /\ a_bam_mtime e = Some (f_mtime sb)).
+  { destruct (exists_ fs fastq && mtime_is fs fastq (a_fastq_mtime e)) eqn:A; [|discriminate]. apply exists_mtime in A. destruct A as (sf & A1 & A2).
+    destruct (exists_ fs bam && mtime_is fs bam (a_bam_mtime e)) eqn:B; [|discriminate]. apply exists_mtime in B. destruct B as (sb & B1 & B2).
+    intro H; inversion H; subst bam. exists sf, sb. repeat split; assumption. }
+  destruct ann as [ap|].
+  - destruct (fs ap) as [sa|] eqn:Fa; [|discriminate]. destruct (mtime_is fs ap (a_ann_mtime e)) eqn:Ma; [|discriminate]. cbn [negb].
+    apply mtime_is_true in Ma. destruct Ma as (sa' & Fa' & Ma). intro H. destruct (REST H) as (sf & sb & -> & R).
+    exists e, si, sf, sb. split; [reflexivity|]. split; [exact Eb|]. split; [reflexivity|]. split; [exact Mi|]. split; [|exact R].
+    intros ap' Hap. inversion Hap; subst ap'. exists sa'. split; assumption.
+  - intro H. destruct (REST H) as (sf & sb & -> & R).
+    exists e, si, sf, sb. split; [reflexivity|]. split; [exact Eb|]. split; [reflexivity|]. split; [exact Mi|]. split; [|exact R]. intros ap Hap; discriminate.
+Qed.
+
 (* ================================================================== 2. dictionaries *)
 Lemma dget_dset_same d k e : dget (dset d k e) k = Some e.
 Proof. induction d as [|[k' e'] t IH]; cbn [dset dget]; [rewrite Z.eqb_refl; reflexivity|].
@@ -673,3 +751,21 @@ Proof. split; [split; [split; [apply clock_ok_fs0|intros d n H; inversion H; sub
     (unfold fresh_proc; cbn; split; [reflexivity|]; split; [reflexivity|]; split; [reflexivity|]; split; [reflexivity|]; split; [auto|]; split; [discriminate|]; eexists; eexists; reflexivity).
   - split; [exact I|]. split; [intros d n H; inversion H; subst; apply wf_dict_nil|].
     intros i p E. destruct i as [|[|i]]; cbn in E; try (destruct i; discriminate); inversion E; subst; (split; [reflexivity|exists false; reflexivity]). Qed.
+
+(* ================================================================== 10. creating the configuration directory *)
+(* os.makedirs(config_dir, exist_ok=True): any number of runs, any schedule, a new or a used HOME - nobody fails *)
+Definition dok (p : dproc) := d_failed p = false /\ Forall (fun o => o = DMake) (d_prog p).
+Lemma dstep1_ok dir p : dok p -> dok (snd (dstep1 dir p)).
+Proof. intros [F P]. unfold dstep1. rewrite F. destruct (d_prog p) as [|o r] eqn:E; [split; [exact F|cbn [snd]; rewrite E; constructor]|].
+  inversion P; subst. split; [reflexivity|assumption]. Qed.
+Lemma dstep_nth_ok : forall ps i dir, Forall dok ps -> Forall dok (snd (dstep_nth dir ps i)).
+Proof. induction ps as [|p t IH]; intros i dir H; [constructor|]. inversion H; subst. destruct i as [|j]; cbn [dstep_nth].
+  - pose proof (dstep1_ok dir p H2) as X. destruct (dstep1 dir p). constructor; assumption.
+  - specialize (IH j dir H3). destruct (dstep_nth dir t j). constructor; assumption. Qed.
+Theorem mkdir_idempotent_never_fails : forall sched dir ps,
+  Forall dok ps -> Forall (fun p => d_failed p = false) (snd (drun dir ps sched)).
+Proof.
+  assert (G: forall sched dir ps, Forall dok ps -> Forall dok (snd (drun dir ps sched))).
+  { induction sched as [|i t IH]; intros dir ps H; [exact H|]. unfold drun. cbn [fold_left fst snd].
+    pose proof (dstep_nth_ok ps i dir H) as X. destruct (dstep_nth dir ps i) as [d' ps']. apply (IH d' ps' X). }
+  intros sched dir ps H. eapply Forall_impl; [|apply G, H]. intros p [F _]. exact F. Qed.
